@@ -6,9 +6,11 @@ real ``BzrServerFactory._make_backing_transport`` (chroot + userdir filter, with
 logging mc.vfs seam and (b) the real LocalTransport on /dev/shm; every request goes through
 the real ``_SmartClient`` -> protocol -> ``SmartServerPipeStreamMedium`` -> dispatcher ->
 request handler.  Paths = all words of <= 3 (quick) / 4 (thorough) tokens over
-{/ . .. a sub %2F %2E%2E %2e %252F ~ ~u ~evil ü %00 secret secretdir ok} (<= 4 / 5 for
-has+get), root_client_path in {/, /pub/}, x 17 VFS request forms (every VFS verb, both
-arguments of rename/move), 4 control-directory verbs, and (<= 2 / 3 tokens) every other
+{/ . .. a sub %2F %2E%2E %2e %252F ~ ~u ~evil ü %00 secret secretdir ok} (get: 4 / 5 tokens on
+the seam variant; quick restricts root /pub/ and the LocalTransport variant to <= 2 tokens
+for most forms, see coverage.bounds.enumerated for the exact table), root_client_path in
+{/, /pub/}, x 17 VFS request forms (every VFS verb, both arguments of rename/move), 4
+control-directory verbs, and (<= 2 / 3 tokens) every other
 registered verb that takes a path.  Each request runs in two worlds that are identical
 inside the served directory /srv/pub and differ only outside (A: canary file, canary
 branch, canary home; B: nothing).  Oracle, by effect: no canary bytes in any response;
@@ -393,36 +395,58 @@ def plan(ctx):
     F = forms()
     deep = list(_VFS) + list(_DEEP)
     wide = [k for k in F if k not in _VFS and k not in _DEEP]
-    Ld = ctx.q(3, 4)          # all deep forms
-    Lc = ctx.q(4, 5)          # cheap forms on the seam variant
-    Lw = ctx.q(2, 3)          # wide forms
     items = []
 
-    def add(kind, root, fname, maxlen, minlen=1):
-        for L in range(minlen, maxlen + 1):
-            if L >= 4:
-                for first in TOKENS:
-                    items.append(("main", kind, root, fname, L, first))
-            else:
-                items.append(("main", kind, root, fname, L, None))
+    def add(kind, root, fnames, maxlen, minlen=1):
+        for fname in fnames:
+            for L in range(minlen, maxlen + 1):
+                if L >= 4:
+                    for first in TOKENS:
+                        items.append(("main", kind, root, fname, L, first))
+                else:
+                    items.append(("main", kind, root, fname, L, None))
 
-    for kind in ("vfs", "local"):
-        for root in ROOTS:
-            if kind == "local" and root != "/" and not ctx.thorough:
-                continue
-            for fname in deep:
-                add(kind, root, fname, Ld)
-            for fname in wide:
-                add(kind, root, fname, Lw)
-    for fname in CHEAP:
-        add("vfs", "/", fname, Lc, minlen=Ld + 1)
+    if not ctx.thorough:
+        table = [
+            ("vfs", "/", "all 21 deep forms", deep, 1, 3),
+            ("vfs", "/pub/", "all 21 deep forms", deep, 1, 2),
+            ("vfs", "/pub/", "get put BzrDir.open_2.1", ["get", "put", "BzrDir.open_2.1"], 3, 3),
+            ("local", "/", "all 21 deep forms", deep, 1, 2),
+            ("local", "/", "has get list_dir put rename:to BzrDir.open_2.1",
+             ["has", "get", "list_dir", "put", "rename:to", "BzrDir.open_2.1"], 3, 3),
+            ("vfs", "/", "get", ["get"], 4, 4),
+            ("vfs", "/", "all other path-taking verbs", wide, 1, 2),
+            ("local", "/", "all other path-taking verbs", wide, 1, 1),
+        ]
+    else:
+        table = [
+            ("vfs", "/", "all 21 deep forms", deep, 1, 4),
+            ("vfs", "/pub/", "all 21 deep forms", deep, 1, 4),
+            ("local", "/", "all 21 deep forms", deep, 1, 4),
+            ("local", "/pub/", "all 21 deep forms", deep, 1, 3),
+            ("vfs", "/", "get", ["get"], 5, 5),
+            ("vfs", "/", "all other path-taking verbs", wide, 1, 3),
+            ("vfs", "/pub/", "all other path-taking verbs", wide, 1, 2),
+            ("local", "/", "all other path-taking verbs", wide, 1, 2),
+        ]
+    for kind, root, _label, fnames, lo, hi in table:
+        add(kind, root, fnames, hi, lo)
     for kind in ("vfs", "local"):
         items.append(("jail", kind, "/", None, 0, None))
-    bounds = {"deep_forms": len(deep), "wide_forms": len(wide), "max_tokens_deep": Ld,
-              "max_tokens_cheap(has,get on seam, root /)": Lc, "max_tokens_wide": Lw,
-              "roots": list(ROOTS), "local_kind_roots": list(ROOTS) if ctx.thorough else ["/"],
-              "tokens": list(TOKENS)}
+    bounds = {"deep_forms": deep, "other_forms": len(wide), "tokens": list(TOKENS), "roots": list(ROOTS),
+              "enumerated": [{"transport": k, "root_client_path": r, "forms": lab, "path_tokens": "%d..%d" % (lo, hi)}
+                             for k, r, lab, _f, lo, hi in table],
+              "jail_probe": "4 URL bases x words <= 3 over %r, both transports" % (JAIL_TOKENS,)}
     return items, bounds
+
+
+def _cpu_seconds():
+    import resource
+    t = 0.0
+    for who in (resource.RUSAGE_SELF, resource.RUSAGE_CHILDREN):
+        r = resource.getrusage(who)
+        t += r.ru_utime + r.ru_stime
+    return round(t, 1)
 
 
 def _cost(item):
@@ -479,6 +503,7 @@ def run(ctx):
         "distinct_outcome_classes": len(acc.outcomes),
         "ok_per_form": okc,
         "work_items": len(items),
+        "cpu_s": _cpu_seconds(),
         "bounds": bounds,
         "samples": acc.samples[:4],
         "exhaustive": True,
